@@ -155,7 +155,8 @@ def main():
             evd = "/tmp/mutev-%d-%d" % (os.getpid(), i)
             caught, detail, inconc = [], [], []
             for p in props:
-                env = dict(os.environ, VERIF_REPO=wt, VERIF_EVIDENCE_DIR=evd, VERIF_SHARDS=os.environ.get("MUT_SHARDS", "6"))
+                env = dict(os.environ, VERIF_REPO=wt, VERIF_EVIDENCE_DIR=evd, VERIF_SHARDS=os.environ.get("MUT_SHARDS", "6"),
+                           VERIF_BUDGET_S=os.environ.get("MUT_BUDGET_S", "300"))
                 rr = sh("cd %s && ./check %s --tier quick" % (V, p), 1800, env)
                 if rr.returncode == 1:
                     caught.append(p)
